@@ -289,7 +289,11 @@ AdaptiveClasses(n) ==
                Ad("opening_delta", {IF n = 0 THEN "Final" ELSE "Consistency0"}, VanIds),
                Ad("zero_z", VanIds, {}), Ad("one_z", {}, VanIds) }
         ELSE { Ad("corrupt_trace", VanIds, {}) })
-Classes(db) == StaticClasses \cup VdClasses \cup AdaptiveClasses(Cardinality(Layers(db)))
+\* variable-degree mode: a proof made WITHOUT the circuit's parameters (no transcript padding) presented to the
+\* padding verifiers: the grinding response and the query indices differ as soon as something had to be padded
+VarClasses(d) == IF ~IsVar THEN {} ELSE
+  { Ad("unpadded", IF Steps(VC, d) < SMax(VC) \/ FinalBits(VC, d) < FinalBits(VC, VC.maxdb) THEN {"Pow"} ELSE {}, {}) }
+Classes(db) == StaticClasses \cup VdClasses \cup AdaptiveClasses(Cardinality(Layers(db))) \cup VarClasses(db)
 
 ----------------------------------------------------------------------------
 VARIABLES adv, db, vc, T, pc, nacc, first, maybeFirst
@@ -356,7 +360,7 @@ Adequate == (pc = 1 /\ adv.name = "none") =>
             \A id \in {T.nc[i].id : i \in 1..Len(T.nc)} :
               \E a \in Classes(db) : Exists(a, db) /\ id \in YesIds(a) /\ YesIds(a) \subseteq Group(id) /\ Cardinality(YesIds(a)) <= 2
 \* every class except the honest proof is rejected or position dependent
-OnlyHonestAccepted == Done /\ Disabled = {} => (nacc = "accept" <=> adv.name = "none")
+OnlyHonestAccepted == Done /\ Disabled = {} => (nacc = "accept" <=> (adv.name = "none" \/ (adv.name = "unpadded" /\ db = VC.maxdb)))
 
 \* Part 3: for every configuration the prover accepts and every proof degree that can be assigned at all, the
 \* circuit switches on exactly the proof's own layers, compares each Merkle path at the proof's own length and
